@@ -12,7 +12,9 @@
 (*                    inside a literal)                                    *)
 (*   "QuoteLineBlind" while the buffer ends inside a literal, comment and  *)
 (*                    doc detection are switched off for the WHOLE next    *)
-(*                    physical line (not only up to the closing quote)     *)
+(*                    physical line (not only up to the closing quote),    *)
+(*                    also for a comment line that stands between the      *)
+(*                    lines of a continued literal                         *)
 (* With Dev = {} the model is the algorithm as the rules require it.       *)
 (***************************************************************************)
 EXTENDS Lex, TLC
@@ -38,9 +40,13 @@ Unterm(s) == IF "QuoteParity" \in Dev THEN UntermBuggy(s, FALSE, "", "")
 (* simply-delimited literals, then a bang and the mark, to end of line)    *)
 (* matches iff the first bang outside simply toggled quotes exists and is  *)
 (* followed by the mark.                                                   *)
+(* A line whose first non-blank character is "!" is a comment line wherever it stands, also between the lines of a   *)
+(* continued character literal (F2018 6.3.2.4: the literal continues on the next line that is not a comment).       *)
+IsCommentLine(line) == Strip(line) # <<>> /\ Head(Strip(line)) = "!"
 ComStart(line, inq, q) ==
   IF "QuoteLineBlind" \in Dev
   THEN (IF inq THEN 0 ELSE Bang("", line))
+  ELSE IF IsCommentLine(line) THEN Bang("", line)
   ELSE Bang(q, line)
 
 MarkAt(line, b, m) == b > 0 /\ m # <<>> /\ StartsWith(Drop(line, b), m)
